@@ -26,6 +26,45 @@ pub type ProtoWriteError = wtransport_proto::stream::IoWriteError;
 #[derive(Debug)]
 pub struct AlreadyStop;
 
+/// Reader that makes reading a frame cancel safe.
+///
+/// Bytes taken from the QUIC stream are recorded into `log`. If a read operation is
+/// dropped before its completion, the next attempt replays them before reading the
+/// stream again.
+struct ReplayReader<'a> {
+    stream: &'a mut QuicRecvStream,
+    log: &'a mut Vec<u8>,
+    offset: usize,
+}
+
+impl wtransport_proto::bytes::AsyncRead for ReplayReader<'_> {
+    fn poll_read(
+        self: Pin<&mut Self>,
+        cx: &mut Context<'_>,
+        buf: &mut [u8],
+    ) -> Poll<std::io::Result<usize>> {
+        let this = self.get_mut();
+
+        if this.offset < this.log.len() {
+            let len = std::cmp::min(buf.len(), this.log.len() - this.offset);
+            buf[..len].copy_from_slice(&this.log[this.offset..this.offset + len]);
+            this.offset += len;
+            return Poll::Ready(Ok(len));
+        }
+
+        let read = ready!(wtransport_proto::bytes::AsyncRead::poll_read(
+            Pin::new(&mut *this.stream),
+            cx,
+            buf
+        ))?;
+
+        this.log.extend_from_slice(&buf[..read]);
+        this.offset += read;
+
+        Poll::Ready(Ok(read))
+    }
+}
+
 #[derive(Debug)]
 pub struct QuicSendStream(quinn::SendStream);
 
@@ -414,8 +453,22 @@ pub mod uniremote {
     }
 
     impl StreamUniRemoteH3 {
-        pub async fn read_frame<'a>(&mut self) -> Result<Frame<'a>, ProtoReadError> {
-            self.proto.read_frame_async(&mut self.stream).await
+        /// Like [`Self::read_frame`], but cancel safe.
+        ///
+        /// `log` must be preserved (and passed again) across attempts.
+        pub async fn read_frame_cancel_safe<'a>(
+            &mut self,
+            log: &mut Vec<u8>,
+        ) -> Result<Frame<'a>, ProtoReadError> {
+            let mut reader = ReplayReader {
+                stream: &mut self.stream,
+                log,
+                offset: 0,
+            };
+
+            let result = self.proto.read_frame_async(&mut reader).await;
+            reader.log.clear();
+            result
         }
 
         pub fn kind(&self) -> StreamKind {
@@ -524,6 +577,24 @@ pub mod session {
     impl StreamSession {
         pub async fn read_frame<'a>(&mut self) -> Result<Frame<'a>, ProtoReadError> {
             self.proto.read_frame_async(&mut self.stream.1).await
+        }
+
+        /// Like [`Self::read_frame`], but cancel safe.
+        ///
+        /// `log` must be preserved (and passed again) across attempts.
+        pub async fn read_frame_cancel_safe<'a>(
+            &mut self,
+            log: &mut Vec<u8>,
+        ) -> Result<Frame<'a>, ProtoReadError> {
+            let mut reader = ReplayReader {
+                stream: &mut self.stream.1,
+                log,
+                offset: 0,
+            };
+
+            let result = self.proto.read_frame_async(&mut reader).await;
+            reader.log.clear();
+            result
         }
 
         pub async fn write_frame(&mut self, frame: Frame<'_>) -> Result<(), ProtoWriteError> {
